@@ -14,6 +14,7 @@
 #include <ascon/hkdf.h>
 #include <ascon/pbkdf2.h>
 #include <ascon/random.h>
+#include <ascon/storage.h>
 #include <sys/types.h>
 #include <errno.h>
 
@@ -115,8 +116,24 @@ static void mac_group(void)
     }
 }
 
+/* seed storage: the stored seed bytes are secret (they become the generator's state); sizes, offsets and callback results are public */
+static uint8_t c11_store[64];
+static int c11_st_read(const ascon_storage_t *s, size_t off, unsigned char *d, size_t n) { (void)s; if (off + n > 64) return -1; memcpy(d, c11_store + off, n); return (int)n; }
+static int c11_st_write(const ascon_storage_t *s, size_t off, const unsigned char *d, size_t n, int erase) { (void)s; (void)erase; if (off + n > 64) return -1; if (d) memcpy(c11_store + off, d, n); return (int)n; }
+
 static void prng_group(void)
 {
+    for (int v = 0; v < 4; v++) for (int geom = 0; geom < 3; geom++) {
+        /* v == 3: the stored seed is all 0xFF (erased flash), still secret */
+        ascon_random_state_t rs3; ascon_storage_t stg; memset(&stg, 0, sizeof stg);
+        stg.page_size = geom == 0 ? 1 : 32; stg.erase_size = geom == 2 ? 64 : 0; stg.size = 64; stg.partial_writes = geom != 1; stg.read = c11_st_read; stg.write = c11_st_write;
+        secrets(v % 3); memset(c11_store, v == 0 ? 0 : 0xff, 64); if (v == 2) hx_fill(c11_store, 64, HX_P_DENSE, 31); SECRET(c11_store, 64);
+        prim("random-init", 0, geom, v); ascon_random_init(&rs3);
+        prim("random-load-seed", geom, 0, v); (void)pub_int(ascon_random_load_seed(&rs3, &stg));
+        prim("random-save-seed", geom, 0, v); (void)pub_int(ascon_random_save_seed(&rs3, &stg));
+        prim("random-load-seed", geom, 1, v); (void)pub_int(ascon_random_load_seed(&rs3, &stg));
+        ascon_random_free(&rs3);
+    }
     for (int v = 0; v < 3; v++) {
         ascon_random_state_t rs2; uint8_t out[200], feed[40];
         secrets(v); hx_fill(feed, 40, HX_P_DENSE, 20 + v); SECRET(feed, 40);
